@@ -203,3 +203,38 @@ Example C09_nonvacuous :
   (h_buf {| h_buf := [1;2;3]; h_limit := 2 |} = [1;2;3] /\ ok_in (Remove 0) [1;2;3] = true) /\
   tail_shrink_over_len 3 2 3 = false /\ tail_shrink_over_len 10 2 3 = true.
 Proof. repeat split; reflexivity. Qed.
+
+(* ---------------- the three crates wired together (FullStack.v) ----------------
+   "using the latest limit/count announced", with the limit announced by a real Observable<usize>
+   and the source a real ObservableVector: a history of ANY calls on the vector (mutators,
+   traversals, transactions, other subscribers, drop; any capacity, so with lag and Reset) and ANY
+   calls on the observable (every setter, other subscribers, clones, drops), the adapter created by
+   dynamic_head_with_initial_value(limit.get(), limit.subscribe()) /
+   dynamic_skip_with_initial_count(..) on a fresh subscriber of the vector, polled at any points.
+   Whenever its stream answers Pending (and the observable still has an owner), the consumer's view
+   is exactly the first / all-but-the-first [current value of the observable] items of the vector's
+   current contents.  ([no_silent]: update_if with a closure answering false stores without
+   announcing, C01; the adapter follows what was announced.) *)
+From EB Require Import OVec OVecRun Obs FullStack FullStackFacts.
+
+Theorem C09_full_stack_head_follows_the_observable :
+  forall (A : Type) veq heq vdefault capacity okd limit0 (evs : list (fev A)) s fuel s',
+    frun veq heq vdefault head_on_diff head_update_limit head_full_init (fs_init capacity okd limit0) evs = ROk s ->
+    fstep veq heq vdefault head_on_diff head_update_limit head_full_init s (FPoll fuel) = ROk (s', FAnswer Pending) ->
+    no_silent evs ->
+    ver (f_lim s') <> 0 ->
+    exists a, f_ad s' = Some a /\
+      a_view a = firstn (val (f_lim s')) (values (g_o (f_g s'))).
+Proof. exact full_head_view. Qed.
+Print Assumptions C09_full_stack_head_follows_the_observable.
+
+Theorem C09_full_stack_skip_follows_the_observable :
+  forall (A : Type) veq heq vdefault capacity okd limit0 (evs : list (fev A)) s fuel s',
+    frun veq heq vdefault skip_on_diff skip_update_count skip_full_init (fs_init capacity okd limit0) evs = ROk s ->
+    fstep veq heq vdefault skip_on_diff skip_update_count skip_full_init s (FPoll fuel) = ROk (s', FAnswer Pending) ->
+    no_silent evs ->
+    ver (f_lim s') <> 0 ->
+    exists a, f_ad s' = Some a /\
+      a_view a = skipn (val (f_lim s')) (values (g_o (f_g s'))).
+Proof. exact full_skip_view. Qed.
+Print Assumptions C09_full_stack_skip_follows_the_observable.
